@@ -145,6 +145,37 @@ Proof.
       destruct Hu as [[p' [Hu Hin]]|Hu]; [left; exists p'; split; [exact Hu | right; exact Hin] | right; exact Hu].
 Qed.
 
+(* a failing callback: the call ends with the callback's error or the error of the done context, never by blocking *)
+Lemma until_fail_ok : forall fuel s final n seen0,
+  quiet s -> (2 * length (n_q s) < fuel)%nat ->
+  exists seen r, until_fail fuel s final n seen0 = (seen0 ++ seen, r) /\
+    (exists k, seen = firstn k (n_q s)) /\ (r = FCbErr \/ exists u, r = FEnd u /\ ctx_end u).
+Proof.
+  intros fuel. induction fuel as [|f IH]; intros s final n seen0 Hq Hf; [lia|].
+  cbn [until_fail].
+  destruct (n_q s) as [|p q] eqn:Eq.
+  - destruct (quiet_empty_res s Hq Eq) as [r [l [E Hr]]]. rewrite E.
+    exists [], (FEnd (UErr r)). rewrite app_nil_r.
+    destruct Hr as [Hr|Hr]; subst r; (split; [reflexivity|]); (split; [exists O; reflexivity|]); right; eexists; (split; [reflexivity|]); [left|right]; reflexivity.
+  - destruct Hq as [H1 Hrest]. pose proof (conj H1 Hrest) as Hq.
+    rewrite (queued_first s true p q H1 Eq).
+    destruct (quiet_after_pkg s p q Hq Eq) as [Hq' Eq'].
+    cbn [length] in Hf.
+    destruct (zlen (seen0 ++ [p]) =? n).
+    + destruct (final p).
+      * exists [p], FCbErr. split; [reflexivity|]. split; [exists 1%nat; reflexivity | left; reflexivity].
+      * assert (Hf' : (length (n_q (after_result s (NPkg p))) < f)%nat) by (rewrite Eq'; lia).
+        destruct (until_none_ok f (after_result s (NPkg p)) final [] false Hq' Hf') as [u [E Hu]].
+        rewrite E. cbn [snd].
+        exists [p], FCbErr. split.
+        -- destruct Hu as [Hu|[Hu|[Hu|Hu]]]; subst u; reflexivity.
+        -- split; [exists 1%nat; reflexivity | left; reflexivity].
+    + assert (Hf' : (2 * length (n_q (after_result s (NPkg p))) < f)%nat) by (rewrite Eq'; lia).
+      destruct (IH (after_result s (NPkg p)) final n (seen0 ++ [p]) Hq' Hf') as [seen [r [E [[k Hk] Hr]]]].
+      exists (p :: seen), r. split; [rewrite E, <- app_assoc; reflexivity|].
+      split; [exists (S k); rewrite Hk, Eq'; reflexivity | exact Hr].
+Qed.
+
 (* ------------------------------------------------------------------ sending *)
 
 Lemma send_closed : forall d pk, send_call true d pk = ([], SClosed).
